@@ -20,7 +20,7 @@ func newFnVC(P *Prog, f *ssa.Function, ct *Contract) *FnVC {
 	return &FnVC{P: P, fn: f, ct: ct, te: newTypeEnv(), vals: map[ssa.Value]string{}, tuples: map[ssa.Value][]string{},
 		reach: map[*ssa.BasicBlock]string{}, heapOut: map[*ssa.BasicBlock]HeapState{}, lazy: map[string]*lazySym{},
 		classN: map[string]int{}, loops: map[*ssa.BasicBlock]*loopInfo{}, latchOf: map[*ssa.BasicBlock][]*loopInfo{},
-		globals: map[*ssa.Global]int{}, debug: map[types.Object][]*ssa.DebugRef{}, closures: map[ssa.Value]*ssa.MakeClosure{}, callN: map[string]int{}}
+		lemmasUsed: map[string]bool{}, invSeen: map[string]bool{}, globals: map[*ssa.Global]int{}, debug: map[types.Object][]*ssa.DebugRef{}, closures: map[ssa.Value]*ssa.MakeClosure{}, callN: map[string]int{}}
 }
 
 // verifyFunc generates the obligations of one function; panics in the generator are
@@ -101,7 +101,7 @@ func cmdVerify(args []string) {
 	re := regexp.MustCompile(*fn)
 	var keys []string
 	for k, ct := range P.contracts {
-		if ct.Extern || ct.Trusted {
+		if ct.Extern || ct.Trusted || ct.IsPred {
 			continue
 		}
 		if re.MatchString(k) {
@@ -110,6 +110,7 @@ func cmdVerify(args []string) {
 	}
 	sort.Strings(keys)
 	var all []*Obligation
+	lemmas := map[string]bool{}
 	bad := 0
 	for _, k := range keys {
 		ct := P.contracts[k]
@@ -132,7 +133,11 @@ func cmdVerify(args []string) {
 			}
 		}
 		all = append(all, c.obls...)
+		for l := range c.lemmasUsed {
+			lemmas[l] = true
+		}
 	}
+	all = append(all, lemmaObligations(P, lemmas)...)
 	t1 := time.Now()
 	dischargeAll(all, *timeout, false, 16)
 	fail := 0
@@ -161,4 +166,54 @@ func cmdVerify(args []string) {
 func cmdCheck(args []string) {
 	fmt.Fprintln(os.Stderr, "not implemented yet")
 	os.Exit(2)
+}
+
+// lemmaObligations: every lemma used by a contract is proved as its own obligation.
+func lemmaObligations(P *Prog, used map[string]bool) []*Obligation {
+	var names []string
+	for n := range used {
+		names = append(names, n)
+	}
+	sort.Strings(names)
+	var out []*Obligation
+	for _, n := range names {
+		sf := P.specs[n]
+		if sf == nil || !sf.isLemma {
+			continue
+		}
+		hasSeq := false
+		for _, p := range sf.params {
+			if p == seqT {
+				hasSeq = true
+			}
+		}
+		variants := []string{""}
+		if hasSeq {
+			variants = []string{"", "_a"}
+		}
+		te := newTypeEnv()
+		for _, v := range variants {
+			var b strings.Builder
+			b.WriteString(prelude)
+			b.WriteString(P.specText[sf.file])
+			var args []string
+			for i, p := range sf.params {
+				if p == seqT {
+					if v == "" {
+						fmt.Fprintf(&b, "(declare-const lh%d (Array Loc (_ BitVec 8)))\n(declare-const ls%d Slice)\n(assert (wf ls%d))\n", i, i, i)
+						args = append(args, fmt.Sprintf("lh%d ls%d", i, i))
+					} else {
+						fmt.Fprintf(&b, "(declare-const la%d (Array (_ BitVec 64) (_ BitVec 8)))\n", i)
+						args = append(args, fmt.Sprintf("la%d", i))
+					}
+					continue
+				}
+				fmt.Fprintf(&b, "(declare-const lx%d %s)\n", i, te.sortOf(p))
+				args = append(args, fmt.Sprintf("lx%d", i))
+			}
+			fmt.Fprintf(&b, "(assert (not (%s%s %s)))\n(check-sat)\n", sf.name, v, strings.Join(args, " "))
+			out = append(out, &Obligation{Name: "lemma." + sf.name + v, Class: "lemma", Raw: b.String(), Goal: "lemma", Descr: "spec lemma " + sf.name + v + " holds for all arguments"})
+		}
+	}
+	return out
 }
